@@ -326,6 +326,12 @@ class _C14Base(BytesMixin, ZListMixin, UnitsExecutor):
                     if loader.module(rel, self.module.repo).functions.get(qual) is fnode:
                         c = cand
                         break
+        if c is None and self.inline_depth > 0 and self.contract is not None and self.contract.loops and self.cur_fn_stack:
+            # the loop the contract speaks about was moved into a private helper that is executed in place: the top function has no loop
+            # of its own left, the helper's loops take the contract's loop specifications by position
+            top = self.cur_fn_stack[0]
+            if not any(isinstance(n, (ast.For, ast.While)) for n in ast.walk(top)):
+                c = self.contract
         if c is None:
             return None
         loops = [n for n in ast.walk(fnode) if isinstance(n, (ast.For, ast.While))]
